@@ -6,6 +6,14 @@ props = [json.loads(l) for l in open(os.path.join(V, 'properties.jsonl'))]
 
 # id -> (level, engine, technique, level text, level note, design_ref)
 CHECKS = {
+ 'C08': ('model_checking', 'E2-seq', 'explicit-state BFS over label set/delete histories on the real code (fresh cloned stores per state) to the fixed point, map reference model, journal monitor; exhaustive short-name acceptance',
+         'All 729 label maps over 2 repos (prefix-related names) x 3 labels x {absent,B1,B2} are reached and every one of the 13122 transitions is executed; after each step every get and every listing (3 prefixes x 4 page sizes) is compared with the model and the write journal must show exactly one key written; every name of length <=2 over a 9-character hostile alphabet is tried for acceptance.',
+         'Two bundles per repo; label names of the BFS are fixed (x, x-y, v1.0.0).',
+         'DESIGN.md §3 C08'),
+ 'C09': ('model_checking', 'E1-sched + E2-seq', 'stateless DFS over all interleavings of concurrent CreateRepo; enumerated multi-repo histories x every delete/rename/delete-files operation with store-diff and observational-equivalence oracles',
+         '(a) every interleaving of 2..4 concurrent creators (incl. a prefix-related name); (b) 25 histories over repos {a,ab,b} with shared contents and labels (one with a 1001-file bundle) x DeleteRepo / RenameRepo (fresh and existing target) / DeleteEntriesFromRepo for every subset of {p,q,absent}: changed keys confined to the repository, other repositories observably identical (listings, labels, full downloads).',
+         'CreateRepo is a single store call, so (a) is small by nature; histories have <=2 bundles per repo.',
+         'DESIGN.md §3 C09'),
  'C07': ('model_checking', 'E2-seq', 'explicit enumeration of store histories x every page size x list concurrency through the real list functions, set model + cross-page-size differential + documented-order oracle',
          'For every enumerated history (repo subsets with prefix-related names; bundles with an interrupted upload at every position; label sets x prefix filters; diamonds x splits x index files x generations x states x user-supplied IDs) every list function and Apply variant is run with EVERY page size from 1 to the number of keys under the scanned prefix + 1 (so every page boundary is hit) and 1024, at concurrency 1/2/32.',
          'Object counts are small (<=5 bundles, <=3 diamonds x 3 splits); extra index files are injected as keys; fake clock and seeded KSUIDs make key order deterministic.',
